@@ -28,3 +28,34 @@ Proof.
       specialize (D _ Hin). apply negb_true_iff in D. apply memb_false in D. contradiction.
     + unfold nth_block in Hb. rewrite nth_overflow in Hb by exact Hge. destruct Hb.
 Qed.
+
+From V.C06 Require Import ProofsComplete.
+
+Lemma shadow_wfb_sound : forall es, shadow_wfb es = true -> shadow_wf es.
+Proof.
+  induction es as [|e r IH]; intros H; simpl in *; auto.
+  apply andb_true_iff in H. destruct H as [A B]. split; [|apply IH; exact B].
+  destruct e; auto. apply existsb_exists in A. destruct A as [e' [Hin He]].
+  destruct e'; try discriminate. apply Nat.eqb_eq in He. eauto.
+Qed.
+
+Lemma reassign_wfb_sound : forall es B, reassign_wfb B es = true -> reassign_wf B es.
+Proof.
+  induction es as [|e r IH]; intros B H; simpl in *; auto.
+  destruct e as [p k | p | p | p | e]; auto.
+  - destruct k; auto.
+  - apply andb_true_iff in H. destruct H as [A C]. split; [|apply IH; exact C].
+    rewrite forallb_forall in A. intros l Hl. apply memb_In. apply A. exact Hl.
+Qed.
+
+Lemma events_wfb_sound : forall c, events_wfb c = true -> events_wf c.
+Proof.
+  intros c H blk Hb. unfold events_wfb in H. rewrite forallb_forall in H. specialize (H _ Hb).
+  apply andb_true_iff in H. destruct H. split; [apply shadow_wfb_sound | apply reassign_wfb_sound]; auto.
+Qed.
+
+Lemma io_okb_sound : forall c, io_okb c = true -> io_ok c.
+Proof.
+  intros c H l Hl Hio. unfold io_okb in H. rewrite forallb_forall in H. specialize (H _ Hl).
+  rewrite Hio in H. exact H.
+Qed.
